@@ -77,7 +77,8 @@ func verifC10Profile(maxN int) {
 	for i := 0; i < nBlockedNets; i++ {
 		conf.BlockedNets = append(conf.BlockedNets, verifNet(verifChoice(2) == 1))
 	}
-	nAllowedASN, nBlockedASN := verifChoice(maxN+1), verifChoice(maxN+1)
+	// ASN lists are cheap: up to two entries in either order in both tiers
+	nAllowedASN, nBlockedASN := verifChoice(3), verifChoice(3)
 	for i := 0; i < nAllowedASN; i++ {
 		conf.AllowedASN = append(conf.AllowedASN, geoip.ASN(nondetU32()))
 	}
